@@ -46,6 +46,9 @@ Inductive sout :=
 | ROk
 | RErr (e : err).
 
+(* the statement a command payload addresses (its first four bytes) *)
+Definition target (d : bytes) : option N := match rd_uint 4 d with Ok (id, _) => Some id | Err _ => None end.
+
 Section Step.
 Variable qa : bool.                       (* CLIENT_QUERY_ATTRIBUTES negotiated *)
 Variable ftab : list (bytes * text).      (* repr(float) tokens, supplied from outside (Model/Exec.v) *)
@@ -69,7 +72,16 @@ Definition sstep (s : store) (o : sop) : store * sout :=
       end
   | SExecute d =>
       match execute_sql qa (lookup s) ftab d with
-      | Err e => (s, RErr e)             (* raised while parsing: nothing has been touched *)
+      | Err e =>
+          (* refused while parsing (unsupported type, flag, undecodable text ...): the long data sent for this execution
+             attempt is used up all the same - it belongs to one attempt, accepted or not *)
+          (match target d with
+           | Some id => match lookup s id with
+                        | Some st => mk_store (next_id s) (put id (with_buffers st []) (tbl s))
+                        | None => s
+                        end
+           | None => s
+           end, RErr e)
       | Ok (sql, attrs, cur) =>
           (* com_stmt_execute.stmt.param_buffers = None - before the application is called, whatever it answers *)
           match rd_uint 4 d with
@@ -103,9 +115,6 @@ Fixpoint srun (s : store) (ops : list sop) : store * list sout :=
   | o :: r => let '(s1, x) := sstep s o in let '(s2, xs) := srun s1 r in (s2, x :: xs)
   end.
 End Step.
-
-(* the statement a command payload addresses (its first four bytes) *)
-Definition target (d : bytes) : option N := match rd_uint 4 d with Ok (id, _) => Some id | Err _ => None end.
 
 (* what the long-data commands of a history add to the buffers of statement id, in order of arrival *)
 Definition collect1 (id : N) (b : list (N * bytes)) (o : sop) : list (N * bytes) :=
